@@ -29,7 +29,7 @@ NOT_APPLICABLE = {
     "C16": _KANI + "the cleartext framework is str-iterator code (split_inclusive, trim_end_matches, String building); a 3-octet "
            "dash_escape/unescape probe did not finish in 7 min (design phase) and Utf8/str kernels of 2 octets ran out of 14 GB in the build phase.",
     "C18": _KANI + "recipient handling lives in Message::decrypt*/TheRing::find_session_key, which need a parsed Message (see C01) and real "
-           "public-key decryption. The one pure kernel, PKESK recipient matching, is checked under C13 (c13_pkesk_match_*).",
+           "public-key decryption. The pure kernels are checked elsewhere: PKESK recipient matching under C13 (c13_pkesk_match_*), plausibility of a decrypted v4 SKESK session key under C04 (c04_skesk_v4_plain_*).",
 }
 NOT_APPLICABLE["C07"] = ("requires symbolic execution of real public-key key generation and signing (RSA/ECC/EdDSA "
                          "arithmetic cannot be bit-blasted); with the primitives stubbed the remaining check would not be "
